@@ -246,6 +246,20 @@ class Scheduler(object):
         finally:
             me.in_sched = False
 
+    def count_step(self):
+        """called from operations that return without blocking or yielding (e.g. a zero-timeout poll), so that a
+        spin loop still hits the step cap instead of running forever ("make waiting visible")"""
+        me = _tls.lthread
+        if me is None or me.sched is not self:
+            return
+        if self.aborting:
+            raise SimAbort()
+        self.steps += 1
+        if self.steps > self.max_steps:
+            self._finish("steps")
+            me.sem.acquire()
+            raise SimAbort()
+
     def block(self, pred, deadline=None, kind="block", info=None):
         """block the calling logical thread until pred() holds or the virtual deadline passes.
         returns True if pred held, False on timeout."""
